@@ -7,6 +7,8 @@ import (
 	"strings"
 
 	vocab "github.com/go-ap/activitypub"
+
+	"verif/harness/vmodel"
 )
 
 // C15: collection IRIs and their owners convert back and forth consistently.
@@ -15,8 +17,8 @@ var colNames = []vocab.CollectionPath{vocab.Inbox, vocab.Outbox, vocab.Followers
 var actorCols = map[vocab.CollectionPath]string{vocab.Inbox: "Inbox", vocab.Outbox: "Outbox", vocab.Followers: "Followers", vocab.Following: "Following", vocab.Liked: "Liked"}
 var objectCols = map[vocab.CollectionPath]string{vocab.Likes: "Likes", vocab.Shares: "Shares", vocab.Replies: "Replies"}
 
-var ownerHosts = []string{"https://example.com", "https://social.example:8443", "http://a.b.example.org", "https://EXAMPLE.com", "https://xn--bcher-kva.example"}
-var ownerPaths = []string{"", "/", "/users/jdoe", "/users/jdoe/", "/a/b/c", "/o/x%20y", "/~x", "/inbox", "/users/outbox/jdoe", "/users/jdoe/likes", "/UPPER/Case", "/a.b/c_d"}
+var ownerHosts = []string{"https://example.com", "https://social.example:8443", "http://a.b.example.org", "https://EXAMPLE.com", "https://xn--bcher-kva.example", "https://[2001:db8::1]", "https://[2001:db8::1]:8443", "https://10.0.0.1:8080"}
+var ownerPaths = []string{"", "/", "/users/jdoe", "/users/jdoe/", "/a/b/c", "/o/x%20y", "/~x", "/inbox", "/users/outbox/jdoe", "/users/jdoe/likes", "/UPPER/Case", "/a.b/c_d", "/a/b/c/d/e/f/g/h/i/j/k/l", "/users/j%C3%BCrgen", "/users/jdoe/followers/x", "/Inbox"}
 
 func isColName(s string) bool {
 	for _, c := range colNames {
@@ -128,8 +130,19 @@ func checkHelper(c *Ctx, actor bool, owner vocab.IRI, mask int, valueForm bool) 
 			kind = "actor-generic-type"
 		}
 	} else {
-		o := &vocab.Object{ID: owner, Type: vocab.NoteType}
-		x, v = o, reflect.ValueOf(o).Elem()
+		// every non-actor object kind carries likes/shares/replies
+		var oks []vmodel.StructKind
+		for _, k := range vmodel.Kinds {
+			if k.Fam != "actor" && k.Fam != "link" {
+				oks = append(oks, k)
+			}
+		}
+		k := oks[(mask+len(owner))%len(oks)]
+		p := reflect.ValueOf(k.New())
+		p.Elem().FieldByName("ID").Set(reflect.ValueOf(owner))
+		p.Elem().FieldByName("Type").Set(reflect.ValueOf(vocab.ActivityVocabularyType(k.SpecificType())))
+		x, v = p.Interface().(vocab.Item), p.Elem()
+		kind = "object"
 	}
 	explicit := map[vocab.CollectionPath]vocab.IRI{}
 	bit := 0
